@@ -246,3 +246,8 @@ def _single_id_set(t, bw, c):
         return False
     kv = {y[1] for y in walk(arg_term(c, bw[0][1], 1, 12)) if y[0] == "var"}
     return bool(ev & kv)
+
+
+def thorough(res):
+    from .. import engine
+    engine.sensitivity("C13", res)
